@@ -2,6 +2,7 @@
 # usage: try_seed.sh <property> <patch.diff>  -- applies the patch to /repo, runs the check, reverts.
 prop=$1; patch=$2
 cd /repo || exit 2
+if [ -n "$(git status --short | grep -v "^??")" ]; then echo "REFUSING: /repo has uncommitted tracked changes"; exit 2; fi
 git apply --check "$patch" || { echo "patch does not apply"; exit 2; }
 git apply "$patch"
 (cd /verif && ./check "$prop" quick) | grep -v "^KNOWN" | tail -6
